@@ -533,7 +533,7 @@ def run(tier):
                 if not okx or rest:
                     res["reader"].append("rdsquashfs -x %r does not show the stored pairs %s: output %r" % (nm, sorted(left)[:3], o4[:120]))
             # unpack: the whole image and one sub directory (moderately sized trees, names the host file system can hold)
-            if len(s.nodes) <= 400 and all(len(c.encode()) <= 255 for p_ in s.nodes for c in p_.split("/")):      # NAME_MAX of the host
+            if os.geteuid() == 0 and len(s.nodes) <= 400 and all(len(c.encode()) <= 255 for p_ in s.nodes for c in p_.split("/")):      # root (chown, mknod); NAME_MAX of the host
                 exp = s.expected()
                 res["reader"] += unpack_compare(tools, out, exp, out + ".un")
                 subdirs = sorted(p for p, nd in s.nodes.items() if nd["kind"] == "dir" and "/" not in p and any(q.startswith(p + "/") for q in s.nodes))
